@@ -85,6 +85,9 @@ pub fn expand(modules: &mut [(std::path::PathBuf, Vec<Declaration>)])
 	// declarations are never pub, hence they are not reexported.
 	// This would break if we had something like "pub use".
 	imports.retain(|(from, to)| from != to);
+	// Splice in a fixed order so that the generated IR is reproducible.
+	let mut imports: Vec<(usize, usize)> = imports.into_iter().collect();
+	imports.sort();
 	for (offset_of_includer, offset_of_includee) in imports
 	{
 		let (_, declarations) = &modules[offset_of_includee];
